@@ -64,20 +64,72 @@ pub fn panic_msg(e: Box<dyn std::any::Any + Send>) -> String {
     }
 }
 
+/// Work counter of the whole process: bumped by every render.  The deadlock watchdog of the
+/// concurrency checks looks at it instead of at the clock alone, so that a slow (overloaded) machine
+/// is never mistaken for a deadlock: a deadlock is "no thread finishes *and no render anywhere in the
+/// process makes progress* for the whole idle limit".
+pub static PROGRESS: std::sync::atomic::AtomicU64 = std::sync::atomic::AtomicU64::new(0);
+pub fn progress() {
+    PROGRESS.fetch_add(1, std::sync::atomic::Ordering::Relaxed);
+}
+/// `recv` with the progress-aware watchdog: `None` when nothing arrived and the work counter stood
+/// still for `idle_secs` seconds in a row (or all senders are gone).
+pub fn recv_watch<T>(rx: &std::sync::mpsc::Receiver<T>, idle_secs: u64) -> Option<T> {
+    use std::sync::atomic::Ordering;
+    let mut last = PROGRESS.load(Ordering::Relaxed);
+    let mut idle = 0;
+    loop {
+        match rx.recv_timeout(std::time::Duration::from_secs(1)) {
+            Ok(v) => return Some(v),
+            Err(std::sync::mpsc::RecvTimeoutError::Disconnected) => return None,
+            Err(std::sync::mpsc::RecvTimeoutError::Timeout) => {
+                let now = PROGRESS.load(Ordering::Relaxed);
+                if now != last {
+                    last = now;
+                    idle = 0;
+                } else {
+                    idle += 1;
+                    if idle >= idle_secs {
+                        return None;
+                    }
+                }
+            }
+        }
+    }
+}
+
+/// One render through both public entry points: `render_to` (caller's sink) and the buffered
+/// `render` (returns a `String`).  They must agree.  A disagreement is reported as the observation
+/// `PANIC` (with a note on stderr): no reference ever produces it, so every check that compares a
+/// render flags the case, whichever of the two entry points is the wrong one.
+fn render_both(t: &liquid::Template, data: &Object) -> Obs {
+    progress();
+    let mut buf = Vec::new();
+    let a = match t.render_to(&mut buf, data) {
+        Ok(()) => match String::from_utf8(buf) {
+            Ok(s) => Obs::Ok(s),
+            Err(e) => Obs::BadUtf8(e.into_bytes()),
+        },
+        Err(e) => Obs::Err(e.to_string()),
+    };
+    let b = match t.render(data) {
+        Ok(s) => Obs::Ok(s),
+        Err(e) => Obs::Err(e.to_string()),
+    };
+    if a.tokens() != b.tokens() {
+        eprintln!("note: Template::render and Template::render_to disagree: render_to={} render={}", a.tokens().chars().take(200).collect::<String>(), b.tokens().chars().take(200).collect::<String>());
+        return Obs::Panic("Template::render and Template::render_to disagree".into());
+    }
+    a
+}
+
 pub fn render_text(parser: &liquid::Parser, text: &str, data: &Object) -> Obs {
     let r = catch_unwind(AssertUnwindSafe(|| {
         let t = match parser.parse(text) {
             Ok(t) => t,
             Err(e) => return Obs::ParseErr(e.to_string()),
         };
-        let mut buf = Vec::new();
-        match t.render_to(&mut buf, data) {
-            Ok(()) => match String::from_utf8(buf) {
-                Ok(s) => Obs::Ok(s),
-                Err(e) => Obs::BadUtf8(e.into_bytes()),
-            },
-            Err(e) => Obs::Err(e.to_string()),
-        }
+        render_both(&t, data)
     }));
     match r {
         Ok(o) => o,
@@ -92,14 +144,7 @@ pub fn render_parsed(t: &Result<liquid::Template, String>, data: &Object) -> Obs
             Ok(t) => t,
             Err(e) => return Obs::ParseErr(e.clone()),
         };
-        let mut buf = Vec::new();
-        match t.render_to(&mut buf, data) {
-            Ok(()) => match String::from_utf8(buf) {
-                Ok(s) => Obs::Ok(s),
-                Err(e) => Obs::BadUtf8(e.into_bytes()),
-            },
-            Err(e) => Obs::Err(e.to_string()),
-        }
+        render_both(&t, data)
     }));
     match r {
         Ok(o) => o,
